@@ -19,6 +19,13 @@ def nontrivial(case):
 
 
 def diagnose(chk, case):
+    if case["op"] == "timelimit":
+        items = [q.strip() for q in case["coq"][6:-1].split(";\n")]
+        vals = chk.coq_show(HEADER, items)
+        return {"conjuncts": [{"conjunct": q[:120], "value": v} for q, v in zip(items, vals)],
+                "codes": {"1": "a solve of the re-used solver returned MaxTime although constructor call + this solve call took less than the time limit by the harness clock (a fresh solver cannot do that)",
+                          "4": "both 1 and 3",
+                          "3": "reported solution.solve_time exceeds the wall time of the constructor call plus this solve call by more than 50 us (a per-solve timer was not reset)"}}
     if case["op"] != "history":
         parts = case["coq"]
         if parts.startswith("maxl ["):
@@ -61,6 +68,9 @@ def post(chk, recs, cases):
                                          "what": "update_data with whole-vector / matrix arguments returned Err after some components had already been applied",
                                          "replay_cmd": "./check C08 --replay <this file>",
                                          "input": {"case_seed": r.get("case_seed")}}, key)
+    for r in recs:
+        if "direct_record" in r:
+            chk.notes.append("direct record: %s" % r)
     obs = [r for r in recs if "observation" in r]
     for o in obs:
         chk.notes.append("observation: %s" % o)
